@@ -57,6 +57,9 @@ enum Consumer {
     ReduceG,
     /// the folding function is the result of an effectful expression: evaluated once, before the first pull
     ReduceFactory,
+    /// the fold stands in a function that captured the iterator and the folding function by
+    /// name; nothing is pulled when the function is created, it is called twice
+    ReduceCapturedTwice,
     Sum,
     Product,
     BitAnd,
@@ -237,6 +240,20 @@ fn reference(source: &Source, stages: &[Stage], consumer: Consumer, pulls: usize
             }
             acc.to_string()
         }
+        Consumer::ReduceCapturedTwice => {
+            let before = log.len();
+            let mut folds = Vec::new();
+            for _ in 0..2 {
+                let mut acc: i64 = 0;
+                while let Some(x) = it.pull(&mut log) {
+                    let i = int_of(&x);
+                    log.push(400 + i);
+                    acc = acc.wrapping_mul(10).wrapping_add(i);
+                }
+                folds.push(acc);
+            }
+            format!("({before}, {}, {})", folds[0], folds[1])
+        }
         Consumer::ReduceFactory => {
             log.push(700);
             let mut acc: i64 = 0;
@@ -361,6 +378,7 @@ fn program(source: &Source, stages: &[Stage], consumer: Consumer, pulls: usize, 
         Consumer::All => format!("r := {it} $&&;"),
         Consumer::Any => format!("r := {it} $||;"),
         Consumer::For => format!("acc := mut [any] []; for x in {it} {{ acc += [x] }}; r := *acc;"),
+        Consumer::ReduceCapturedTwice => format!("it0 := {it}; h := () -> int {{ return it0 $ 0 g }}; n0 := std.len(*log); a := h(); b := h(); r := (n0, a, b);"),
         Consumer::ReduceFactory => format!("mkg := () -> (int, int) -> int {{ log += [700]; return g }}; r := {it} $ 0 mkg();"),
         Consumer::ForEmptyBody => format!("for x in {it} {{ }}; r := ();"),
         Consumer::ForConstantBody => format!("for x in {it} {{ 1; \"two\" }}; r := ();"),
@@ -458,7 +476,7 @@ fn jobs(thorough: bool) -> Vec<Job> {
         }
     }
     let int_consumers = [
-        Consumer::Collect, Consumer::PartitionGt1, Consumer::ReduceG, Consumer::ReduceFactory, Consumer::Sum, Consumer::Product, Consumer::BitAnd,
+        Consumer::Collect, Consumer::PartitionGt1, Consumer::ReduceG, Consumer::ReduceFactory, Consumer::ReduceCapturedTwice, Consumer::Sum, Consumer::Product, Consumer::BitAnd,
         Consumer::BitOr, Consumer::For, Consumer::ForEmptyBody, Consumer::ForConstantBody, Consumer::ForContinue, Consumer::ForBreak, Consumer::Manual,
     ];
     for s in &sources {
@@ -470,7 +488,7 @@ fn jobs(thorough: bool) -> Vec<Job> {
         for p in &pipelines {
             for c in int_consumers {
                 out.push(Job { source: s.clone(), stages: p.clone(), consumer: c, pulls: n + 2, twice: false });
-                if matches!(s, Source::Array(_)) && p.len() <= 1 {
+                if matches!(s, Source::Array(_)) && p.len() <= 1 && c != Consumer::ReduceCapturedTwice {
                     out.push(Job { source: s.clone(), stages: p.clone(), consumer: c, pulls: n + 2, twice: true });
                 }
             }
@@ -598,6 +616,9 @@ fn float_and_string_folds() -> (u64, Vec<Violation>) {
         ("user-iterator", "f := (a: [float]) -> any { mk := () -> () -> (bool, float) { i := mut 0; return () -> (bool, float) { if *i < std.len(a) { i += 1; return (true, a[*i - 1]) }; return (false, 0.0) } }; return (mk() $+, mk() $*) }"),
         ("behind-map", "f := (a: [float]) -> any { id := (x: float) -> float { return x }; return (a~ @ id $+, a~ @ id $*) }"),
         ("std.operators", "f := (a: [float]) -> any { return (std.operators.float_sum(a~), std.operators.float_product(a~)) }"),
+        // a source whose element type is a union with int, mapped into floats (first element 1 -> 1.0)
+        ("mixed-source-mapped-to-floats", "f := (a: [float]) -> any { m := [1] + a; fl := (x: int|float) -> float { if q: float = x { return q }; return 1.0 }; return (m~ @ fl $+, m~ @ fl $*) }"),
+        ("mixed-user-iterator-mapped-to-floats", "f := (a: [float]) -> any { mk := () -> () -> (bool, int|float) { i := mut 0; return () -> (bool, int|float) { i += 1; if *i == 1 { return (true, 1) }; if *i - 2 < std.len(a) { return (true, a[*i - 2]) }; return (false, 0) } }; fl := (x: int|float) -> float { if q: float = x { return q }; return 1.0 }; return (mk() @ fl $+, mk() @ fl $*) }"),
     ];
     let mut fs = Vec::new();
     let mut out = Vec::new();
@@ -609,9 +630,14 @@ fn float_and_string_folds() -> (u64, Vec<Violation>) {
     }
     let mut n = 0u64;
     for seq in &seqs {
-        let sum = seq.iter().fold(0.0f64, |a, x| a + x);
-        let prod = seq.iter().fold(1.0f64, |a, x| a * x);
-        let want = format!("({}, {})", crate::val::float_canon(sum), crate::val::float_canon(prod));
+        let fold = |seq: &[f64]| {
+            let sum = seq.iter().fold(0.0f64, |a, x| a + x);
+            let prod = seq.iter().fold(1.0f64, |a, x| a * x);
+            format!("({}, {})", crate::val::float_canon(sum), crate::val::float_canon(prod))
+        };
+        let want_plain = fold(seq);
+        let with_one: Vec<f64> = std::iter::once(1.0).chain(seq.iter().copied()).collect();
+        let want_prefixed = fold(&with_one);
         let arg: Variable = seq.iter().map(|x| Variable::Float(*x)).collect::<Vec<_>>().into();
         let arg = if seq.is_empty() {
             match core::guard(|| Code::parse(&interp, "[0.0; 0]").unwrap().exec().unwrap()) {
@@ -630,7 +656,8 @@ fn float_and_string_folds() -> (u64, Vec<Violation>) {
                 Err(core::Stop::Panic(p)) => format!("PANIC {} @{}", p.short_msg(), p.file()),
                 Err(core::Stop::Exhausted) => continue,
             };
-            if got != want {
+            let want = if name.starts_with("mixed-") { &want_prefixed } else { &want_plain };
+            if got != *want {
                 let shown: Vec<String> = seq.iter().map(|x| format!("{x:?}")).collect();
                 out.push(Violation {
                     sig: format!("C11|float-folds|{name}|len={}|{}", seq.len(), shown.join(",").chars().take(60).collect::<String>()),
@@ -639,7 +666,27 @@ fn float_and_string_folds() -> (u64, Vec<Violation>) {
             }
         }
     }
-    // strings: concatenation in order
+    // strings: concatenation in order (also behind a map from a source of int|string elements)
+    let mixed = core::guard(|| Code::parse(&interp, "f := (a: [string]) -> any { m := [1] + a; st := (x: int|string) -> string { if q: string = x { return q }; return \"1\" }; return m~ @ st $+ }").map(|c| c.exec()));
+    if let Ok(Ok(Ok(Variable::Function(f)))) = mixed {
+        for seq in [vec![], vec!["a"], vec!["a", "b"], vec!["", "é", "z"]] {
+            n += 1;
+            let want = format!("{:?}", format!("1{}", seq.concat()));
+            let arg = if seq.is_empty() { core::guard(|| Code::parse(&interp, "[\"\"; 0]").unwrap().exec().unwrap()).ok() } else { Some(seq.iter().map(|x| Variable::from(*x)).collect::<Vec<_>>().into()) };
+            let Some(arg) = arg else { continue };
+            let got = match core::guard(|| f.clone().create_call(vec![arg]).map(|c| c.exec())) {
+                Ok(Ok(Ok(v))) => canon(&v),
+                Ok(Ok(Err(e))) => format!("error:{}", core::exec_error_kind(&e)),
+                Err(core::Stop::Panic(p)) => format!("PANIC {} @{}", p.short_msg(), p.file()),
+                other => format!("{:?}", other.map(|r| r.map(|r| r.map(|v| canon(&v))))),
+            };
+            if got != want {
+                out.push(Violation { sig: format!("C11|string-fold|mixed-source-mapped-to-strings|{}", seq.join(",")), detail: json!({"kind": "host_call", "program": "f := (a: [string]) -> any { m := [1] + a; st := ...; return m~ @ st $+ }", "args": [format!("{seq:?}")], "expected": want, "observed": got}) });
+            }
+        }
+    } else {
+        out.push(Violation { sig: "C11|string-fold|program-fails|mixed-source-mapped-to-strings".into(), detail: json!({"kind": "program", "stdlib": true, "text": "m := [1] + a; m~ @ st $+"}) });
+    }
     let sf = core::guard(|| Code::parse(&interp, "f := (a: [string]) -> any { return a~ $+ }").map(|c| c.exec()));
     if let Ok(Ok(Ok(Variable::Function(f)))) = sf {
         for seq in [vec![], vec!["a"], vec!["a", "b"], vec!["", "é", "", "z"], vec!["ab", "", "cd", "e"]] {
